@@ -1,6 +1,6 @@
 """run engine P on the functions of one contract module:  python3-vt -m pyvc.run contracts.grouped_list [qual ...]"""
 import sys, importlib, time, json, traceback
-from pyvc.exprs import FullEngine
+from pyvc.comps import PEngine as FullEngine
 from pyvc.engine import Unsupported
 from pyvc.discharge import discharge
 
